@@ -262,7 +262,13 @@ func checkSameNamedTypes() error {
 // failed to build other arrays.
 func checkC16(c *Case, s *Stats) error {
 	if c.Gen == "concurrent-round" {
-		return concurrentArrays(c.Block, s)
+		// a replay: the outcome depends on the schedule, so the round is repeated
+		for rep := 0; rep < 40; rep++ {
+			if err := concurrentArrays(c.Block, s); err != nil {
+				return err
+			}
+		}
+		return nil
 	}
 	eidx := []int32{1, 2, 63, 64, 130, 700, 4099}
 	eraw := []uint64{0xa1, 0xb2b2, 0xc3c3c3, 0xd4d4d4d4, 0xe5, 0xf6f6, 0x0707070707070707}
